@@ -69,7 +69,9 @@ with read_arr_loop (L : limits) (fuel : nat) (d : N) (acc : list obj) (iseen : N
     | Err e => Err (eof_mal e)
     | Ok [] => Err Malformed
     | Ok ((b :: r) as s1) =>
-      if b =? cRB then Ok (OArr (rev acc), r)
+      if b =? cRB then
+        (* the final length is checked at the closing bracket *)
+        if max_arr L <? N.of_nat (length acc) then Err Malformed else Ok (OArr (rev acc), r)
       else if (2 <=? iseen) && (b =? cR) then
         match acc with
         | OInt g :: OInt n :: acc' => read_arr_loop L f d (mk_ref n g :: acc') 0 r
@@ -79,7 +81,8 @@ with read_arr_loop (L : limits) (fuel : nat) (d : N) (acc : list obj) (iseen : N
         match read_object L f d s1 with
         | Err e => Err (eof_mal e)
         | Ok (o, s2) =>
-          if max_arr L <=? N.of_nat (length acc) then Err Malformed
+          (* one element more than the limit may be held while a reference is being read *)
+          if max_arr L <? N.of_nat (length acc) then Err Malformed
           else read_arr_loop L f d (o :: acc) (if is_int o then iseen + 1 else 0) s2
         end
     end
